@@ -5,9 +5,17 @@
 // Every case builds one real message.Router with 1..6 handlers over scripted subscribers and
 // publishers (vlib.Sub / vlib.Pub, shared or private, Stringer or not), injects interleaved message
 // streams into the individual subscriptions and judges, from what was recorded at the boundary
-// (handler functions, an outermost recording middleware, the arguments of every Publish call):
-// which function ran for which emission, what was published where, and what the five context
-// accessors reported inside the handler and on the produced messages at Publish time.
+// (handler functions, every layer of the middleware chains, the arguments of every Publish call):
+// which function ran for which emission, which middleware layers ran around it and what each of them
+// received and handed on, what was published where, and what the five context accessors reported
+// inside the handler and on the produced messages at Publish time.
+//
+// Handler names are unusual-but-legal on purpose (the empty string, prefixes / case and whitespace
+// variants of each other, names equal to topics, arbitrary UTF-8, very long names with a long common
+// prefix) and handlers carry chains of 0..3 handler-level middlewares with observable effects
+// (adding, dropping, reordering, duplicating outputs, short-circuiting the function), interleaved at
+// registration with router-level middlewares: anything that identifies a handler by less than its
+// exact name and registration shows up as a foreign layer in another handler's chain.
 package c08
 
 import (
@@ -30,21 +38,33 @@ func init() {
 	vlib.Register(&vlib.Prop{
 		ID:    "C08",
 		Level: "exploration",
-		Cases: func(tier string) int { return vlib.TierN(tier, 1000, 320000) },
+		Cases: func(tier string) int { return vlib.TierN(tier, 2500, 320000) },
 		Run:   run,
 		Rule: "one random Router per case: 1..6 handlers, subscribe/publish topics from a pool of 3 (sharing allowed, occasionally the empty topic), " +
 			"1..n scripted subscribers and publishers shared or private (Stringer *vlib.Sub/*vlib.Pub, or non-Stringer pointer/value wrappers to exercise the %T naming rule), " +
-			"handlers with a publisher / AddNoPublisherHandler / AddHandler with a nil publisher, optional handler-level output-adding middleware, handler names that are prefixes of each other, " +
+			"handlers with a publisher / AddNoPublisherHandler / AddHandler with a nil publisher; " +
+			"handler names: 40% of the cases the prefix chain <id>/h, <id>/ha, ...; the others mix unusual-but-legal names per handler - the empty string (forced on one handler in half of them), " +
+			"a name equal to a topic of the pool, arbitrary valid UTF-8 (control characters, multi-byte), 300..70000-byte names that differ in the last byte only, variants of another handler's name " +
+			"(+space, +NUL, upper-cased, minus the last byte, +'/'), blank names (' ', tab); " +
+			"middleware layers: an observing router-level layer added first, in 40% of the cases 1..2 more router-level layers, and per handler (35%, 60% without publisher, 80% for the empty name) a chain of 1..3 " +
+			"handler-level layers (Handler.AddMiddleware, one call per layer or one variadic call, right after AddHandler or deferred until the other handlers are registered); layer kinds: pass, add planned outputs, " +
+			"drop first/last/all, reverse, duplicate the first, short-circuit (own fresh message / nothing / error without calling next; only where the handler of the subscription is known without the function running); " +
+			"a per-emission bit mask decides which layers act, so one layer is observable for some emissions and transparent for others; router-level layers land at random positions of the registration program " +
+			"(before / between / after handlers and their handler-level middlewares; all before Run); " +
 			"handlers registered before Run or added later through RunHandlers; one message stream per subscription (0..4 emissions, optional failing first attempt + redelivery), " +
 			"streams driven concurrently (pipelined or settle-before-next) or by one sequential interleaving; output shapes 0..n: fresh objects, the consumed message, one object twice, middleware-appended objects; " +
-			"schedule perturbation at watermill's verifhook points. A case is non-trivial when at least one Publish call or one no-publisher Nack was judged; " +
-			"distinct = distinct (wiring shape, output-shape multiset, drive mode, max handler overlap) signatures.",
+			"schedule perturbation at watermill's verifhook points. Per emission the oracle checks: the layers entered are router-level ones and the handling handler's own (none foreign, none twice, none missing unless short-circuited: mw-wrong-handler), " +
+			"every layer received from next() exactly what the stage inside it returned, from the function outwards (chain-link), and the outermost return values reach that handler's publisher/topic unmodified and in order, or cause the no-publisher Nack. " +
+			"A case is non-trivial when at least one Publish call or one no-publisher Nack was judged; " +
+			"distinct = distinct (wiring shape incl. name kinds and layer kinds, registration program, output-shape multiset, drive mode, max handler overlap) signatures.",
 		Assumptions: []string{
 			"publishers always succeed and handlers that fail return no messages (publish errors / outputs together with an error are outside the statement)",
 			"emitted messages carry a fresh context derived from the subscription context, as a broker would deliver them (no pre-existing router context keys)",
 			"the publisher name reported in the context is not judged for handlers without a publisher (the statement defines no publisher type name for them)",
 			"outputs of one invocation may reach the publisher in one or several Publish calls as long as their concatenation is the returned sequence (the statement does not fix the batching; the split is counted in split_publish)",
 			"Ack after a successful Publish is not judged here (only the Nack of the no-publisher clause); an unsettled message that was handled correctly makes the case inconclusive",
+			"the nesting order of the middlewares of one chain is not judged (the statement does not mention it): layers are matched by what they hand to each other, whatever order watermill composes them in",
+			"every middleware is added before the handler it applies to is started (router-level ones before Run): a middleware added to an already running handler is outside the statement",
 		},
 	})
 }
@@ -113,8 +133,67 @@ type hcfg struct {
 	pubKind  int
 	pub      int
 	pubTopic string
-	mw       bool
+	mws      []*layer // handler-level middlewares, in the order they are added to the handler
 	late     bool
+	nameKind int
+	deferMW  bool // (early handlers) Handler.AddMiddleware is called after the other handlers were registered
+}
+
+// kinds of handler names
+const (
+	nkChain   = iota // <id>/h, <id>/ha, <id>/haa ... (each a prefix of the next)
+	nkEmpty          // "" - legal: AddHandler only demands uniqueness
+	nkTopic          // equal to a topic of the case's topic pool
+	nkUnicode        // <id>/ + arbitrary valid UTF-8 (control characters, multi-byte, possibly nothing)
+	nkLong           // <id>/L + 300..70000 identical bytes + one distinguishing last byte (long common prefix)
+	nkVariant        // another handler's name + " " / + NUL / upper-cased / minus its last byte / + "/"
+	nkBlank          // " " or a tab
+)
+
+var nkNames = []string{"chain", "empty", "topic", "unicode", "long", "variant", "blank"}
+
+// kinds of middleware layers
+const (
+	lkPass      = iota // observes only
+	lkAdd              // appends the emission's planned extra outputs (fresh objects, the consumed message, the first inner output again)
+	lkDrop             // drops the first / the last / all inner outputs
+	lkReverse          // reverses the inner outputs
+	lkDup              // appends the first inner output a second time
+	lkShort            // does not call next; returns one fresh message of its own
+	lkShortNone        // does not call next; returns nothing
+	lkShortErr         // does not call next; returns an error
+)
+
+var lkNames = []string{"pass", "add", "drop", "rev", "dup", "short", "short0", "shorterr"}
+
+// layer is one middleware of the case. Whether it does anything for a given emission is decided by
+// bit (id%32) of the emission's mwMask, so one layer is observable for some emissions and transparent for others.
+type layer struct {
+	id    int // index in caseState.layers; 0 = the observing layer added to the Router first
+	owner int // handler index, -1 = router-level
+	kind  int
+	arg   int // lkDrop: 0 first, 1 last, 2 all
+}
+
+func (l *layer) String() string {
+	if l.owner < 0 {
+		return fmt.Sprintf("L%d(router,%s)", l.id, lkNames[l.kind])
+	}
+	return fmt.Sprintf("L%d(h%d,%s)", l.id, l.owner, lkNames[l.kind])
+}
+
+// layerRun is one execution of a layer: what next() handed to it and what it handed on.
+type layerRun struct {
+	eid      string
+	layer    int
+	called   bool // next was called
+	done     bool
+	in       []*message.Message
+	inSnaps  []vlib.MsgSnap
+	inErr    bool
+	out      []*message.Message
+	outSnaps []vlib.MsgSnap
+	outErr   bool
 }
 
 // expected context: name, subscribe topic, publish topic, subscriber name, publisher name ("*" = not judged)
@@ -163,7 +242,9 @@ type emPlan struct {
 	payload   []byte
 	meta      [][2]string
 	fnOuts    []string // tokens: "C" consumed message, "F<k>" fresh object k (same k = same object)
-	mwOuts    []string // appended by the handler's output-adding middleware: "C", "D" (first inner output again), "W<k>"
+	mwOuts    []string // appended by every active output-adding layer: "C", "D" (first inner output again), "W<k>" (fresh, per layer)
+	mwMask    uint32   // bit (layer id % 32): the layer is active for this emission
+	shortOK   bool     // short-circuiting layers may act: the handler that gets this emission is known without the function running
 	fresh     map[string]freshSpec
 	failFirst bool // attempt 1 returns an error (and no messages); the harness redelivers once
 	wait      bool // the stream waits for the settlement before its next emission
@@ -188,18 +269,17 @@ type invRec struct {
 	ctx  [5]string
 	snap vlib.MsgSnap
 	ptr  *message.Message
+	// what the function returned
+	returned bool
+	ret      []*message.Message
+	retSnaps []vlib.MsgSnap
+	retErr   bool
 }
 
 type chainRec struct {
-	eid   string
 	outs  []*message.Message
 	snaps []vlib.MsgSnap
 	err   bool
-}
-
-type mwRec struct {
-	eid   string
-	owner int
 }
 
 type spInfo struct {
@@ -218,9 +298,11 @@ type caseState struct {
 
 	mu       sync.Mutex
 	emitted  []*emission
-	invs     []invRec
-	chains   []chainRec
-	mws      []mwRec
+	invs     []*invRec
+	lruns    []*layerRun
+	layers   []*layer
+	rlOps    [][2]int // registration program of the early part: {0,h} AddHandler h (+ its middlewares unless deferred), {1,layer} Router.AddMiddleware, {2,h} deferred Handler.AddMiddleware of h
+	handles  map[int]*message.Handler
 	unknown  []string
 	active   atomic.Int32
 	maxAct   atomic.Int32
@@ -274,7 +356,7 @@ func (c *caseState) noPubFunc(h int) message.NoPublishHandlerFunc {
 	}
 }
 
-func (c *caseState) invoke(h int, msg *message.Message, canReturn bool) ([]*message.Message, error) {
+func (c *caseState) invoke(h int, msg *message.Message, canReturn bool) (outs []*message.Message, err error) {
 	n := c.active.Add(1)
 	for {
 		m := c.maxAct.Load()
@@ -284,7 +366,7 @@ func (c *caseState) invoke(h int, msg *message.Message, canReturn bool) ([]*mess
 	}
 	defer c.active.Add(-1)
 	eid := eidOf(msg)
-	rec := invRec{eid: eid, h: h, ctx: readCtx(msg.Context()), snap: vlib.Snap(msg), ptr: msg}
+	rec := &invRec{eid: eid, h: h, ctx: readCtx(msg.Context()), snap: vlib.Snap(msg), ptr: msg}
 	c.mu.Lock()
 	c.invs = append(c.invs, rec)
 	if c.ctxOf == nil {
@@ -292,6 +374,12 @@ func (c *caseState) invoke(h int, msg *message.Message, canReturn bool) ([]*mess
 	}
 	c.ctxOf[h] = msg.Context()
 	c.mu.Unlock()
+	defer func() {
+		snaps := snapAll(outs)
+		c.mu.Lock()
+		rec.returned, rec.ret, rec.retSnaps, rec.retErr = true, append([]*message.Message(nil), outs...), snaps, err != nil
+		c.mu.Unlock()
+	}()
 	p, att := c.planFor(eid)
 	if p == nil {
 		c.mu.Lock()
@@ -308,7 +396,6 @@ func (c *caseState) invoke(h int, msg *message.Message, canReturn bool) ([]*mess
 	if !canReturn {
 		return nil, nil
 	}
-	var outs []*message.Message
 	objs := map[string]*message.Message{}
 	for _, tok := range p.fnOuts {
 		if tok == "C" {
@@ -325,61 +412,101 @@ func (c *caseState) invoke(h int, msg *message.Message, canReturn bool) ([]*mess
 	return outs, nil
 }
 
-// outMW is the output-adding middleware registered on handler `owner` only.
-func (c *caseState) outMW(owner int) message.HandlerMiddleware {
+func snapAll(ms []*message.Message) []vlib.MsgSnap {
+	var out []vlib.MsgSnap
+	for _, m := range ms {
+		if m == nil {
+			out = append(out, vlib.MsgSnap{})
+			continue
+		}
+		out = append(out, vlib.Snap(m))
+	}
+	return out
+}
+
+// layerMW is the middleware of layer l. It records what it was handed by next() and what it hands on,
+// and - when active for the emission - applies the effect of its kind.
+func (c *caseState) layerMW(l *layer) message.HandlerMiddleware {
 	return func(next message.HandlerFunc) message.HandlerFunc {
 		return func(msg *message.Message) ([]*message.Message, error) {
 			eid := eidOf(msg)
+			run := &layerRun{eid: eid, layer: l.id}
 			c.mu.Lock()
-			c.mws = append(c.mws, mwRec{eid: eid, owner: owner})
+			c.lruns = append(c.lruns, run)
 			c.mu.Unlock()
-			outs, err := next(msg)
-			if err != nil {
-				return outs, err
-			}
 			p, _ := c.planFor(eid)
-			if p == nil {
-				return outs, err
-			}
-			objs := map[string]*message.Message{}
-			res := append([]*message.Message(nil), outs...)
-			for _, tok := range p.mwOuts {
-				switch {
-				case tok == "C":
-					res = append(res, msg)
-				case tok == "D":
-					if len(outs) > 0 {
-						res = append(res, outs[0])
-					}
-				default:
-					o := objs[tok]
-					if o == nil {
-						o = mkFresh(eid, tok, p.fresh[tok])
-						objs[tok] = o
-					}
-					res = append(res, o)
+			active := p != nil && l.kind != lkPass && p.mwMask>>(uint(l.id)%32)&1 == 1
+			var outs []*message.Message
+			var err error
+			if active && l.kind >= lkShort && p.shortOK {
+				switch l.kind {
+				case lkShort:
+					outs = []*message.Message{mkFresh(eid, fmt.Sprintf("S@L%d", l.id), p.fresh["S"])}
+				case lkShortErr:
+					err = fmt.Errorf("layer %d short-circuits %s with an error", l.id, eid)
+				}
+			} else {
+				ins, ierr := next(msg)
+				inSnaps := snapAll(ins)
+				c.mu.Lock()
+				run.called, run.in, run.inSnaps, run.inErr = true, append([]*message.Message(nil), ins...), inSnaps, ierr != nil
+				c.mu.Unlock()
+				outs, err = ins, ierr
+				if active && ierr == nil {
+					outs = c.transform(l, p, eid, msg, ins)
 				}
 			}
-			return res, nil
+			outSnaps := snapAll(outs)
+			c.mu.Lock()
+			run.done, run.out, run.outSnaps, run.outErr = true, append([]*message.Message(nil), outs...), outSnaps, err != nil
+			c.mu.Unlock()
+			return outs, err
 		}
 	}
 }
 
-// recorder is the outermost (first added, router-level) middleware: it sees exactly what the
-// handler's chain hands back to the Router.
-func (c *caseState) recorder(next message.HandlerFunc) message.HandlerFunc {
-	return func(msg *message.Message) ([]*message.Message, error) {
-		eid := eidOf(msg)
-		outs, err := next(msg)
-		r := chainRec{eid: eid, outs: append([]*message.Message(nil), outs...), err: err != nil}
-		for _, o := range outs {
-			r.snaps = append(r.snaps, vlib.Snap(o))
+func (c *caseState) transform(l *layer, p *emPlan, eid string, msg *message.Message, ins []*message.Message) []*message.Message {
+	res := append([]*message.Message(nil), ins...)
+	switch l.kind {
+	case lkAdd:
+		objs := map[string]*message.Message{}
+		for _, tok := range p.mwOuts {
+			switch {
+			case tok == "C":
+				res = append(res, msg)
+			case tok == "D":
+				if len(ins) > 0 {
+					res = append(res, ins[0])
+				}
+			default:
+				o := objs[tok]
+				if o == nil {
+					o = mkFresh(eid, fmt.Sprintf("%s@L%d", tok, l.id), p.fresh[tok])
+					objs[tok] = o
+				}
+				res = append(res, o)
+			}
 		}
-		c.mu.Lock()
-		c.chains = append(c.chains, r)
-		c.mu.Unlock()
-		return outs, err
+	case lkDrop:
+		switch {
+		case len(res) == 0:
+		case l.arg == 0:
+			res = res[1:]
+		case l.arg == 1:
+			res = res[:len(res)-1]
+		default:
+			res = nil
+		}
+	case lkReverse:
+		for i, j := 0, len(res)-1; i < j; i, j = i+1, j-1 {
+			res[i], res[j] = res[j], res[i]
+		}
+	case lkDup:
+		if len(ins) > 0 {
+			res = append(res, ins[0])
+		}
 	}
+	return res
 }
 
 // ---------------------------------------------------------------------------------------------
@@ -437,6 +564,144 @@ func genMwOuts(r *vlib.Rand) ([]string, string) {
 	}
 }
 
+// genNames draws nH pairwise different handler names. 40% of the cases keep the plain prefix chain
+// (<id>/h, <id>/ha, ...); the others mix the name kinds, and half of those put the empty name on one handler.
+func genNames(r *vlib.Rand, id string, nH int, topics []string) ([]string, []int) {
+	names := make([]string, nH)
+	kinds := make([]int, nH)
+	used := map[string]bool{}
+	chain := func(i int) string { return id + "/h" + strings.Repeat("a", i) }
+	if r.Intn(10) < 4 {
+		for i := range names {
+			names[i], kinds[i] = chain(i), nkChain
+		}
+		return names, kinds
+	}
+	emptyAt := -1
+	if r.Bool() {
+		emptyAt = r.Intn(nH)
+	}
+	longN := []int{300, 5000, 70000}[r.Intn(3)]
+	for i := 0; i < nH; i++ {
+		k := []int{nkChain, nkChain, nkEmpty, nkTopic, nkTopic, nkUnicode, nkUnicode, nkLong, nkVariant, nkVariant, nkBlank}[r.Intn(11)]
+		if i == emptyAt {
+			k = nkEmpty
+		}
+		n := ""
+		switch k {
+		case nkEmpty:
+		case nkTopic:
+			n = topics[r.Intn(len(topics))]
+		case nkUnicode:
+			n = id + "/" + r.UTF8(8)
+		case nkLong:
+			n = id + "/L" + strings.Repeat("x", longN) + string(rune('a'+r.Intn(3)))
+		case nkVariant:
+			if i == 0 {
+				k, n = nkChain, chain(i)
+				break
+			}
+			o := names[r.Intn(i)]
+			switch r.Intn(5) {
+			case 0:
+				n = o + " "
+			case 1:
+				n = o + "\x00"
+			case 2:
+				n = strings.ToUpper(o)
+			case 3:
+				if len(o) > 0 {
+					n = o[:len(o)-1] // may cut a multi-byte rune: handler names are plain Go strings
+				}
+			default:
+				n = o + "/"
+			}
+		case nkBlank:
+			n = []string{" ", "\t"}[r.Intn(2)]
+		default:
+			n = chain(i)
+		}
+		if used[n] || (k != nkEmpty && n == "") {
+			// taken (or degenerated to the empty name, which is drawn on its own): fall back to the chain name
+			k, n = nkChain, chain(i)
+			for used[n] {
+				n += "'"
+			}
+		}
+		used[n] = true
+		names[i], kinds[i] = n, k
+	}
+	return names, kinds
+}
+
+// genLayers draws the middleware layers of the case and the registration program of the early handlers.
+func (c *caseState) genLayers() {
+	r := c.e.R
+	newLayer := func(owner, kind int) *layer {
+		l := &layer{id: len(c.layers), owner: owner, kind: kind, arg: r.Intn(3)}
+		c.layers = append(c.layers, l)
+		return l
+	}
+	randKind := func(short bool) int {
+		ks := []int{lkPass, lkAdd, lkAdd, lkAdd, lkDrop, lkReverse, lkReverse, lkDup}
+		if short {
+			ks = append(ks, lkShort, lkShort, lkShortNone, lkShortErr)
+		}
+		return ks[r.Intn(len(ks))]
+	}
+	newLayer(-1, lkPass) // layer 0: added to the Router before anything else
+	var routerExtra []*layer
+	if r.Chance(0.4) {
+		for i, n := 0, r.Range(1, 2); i < n; i++ {
+			routerExtra = append(routerExtra, newLayer(-1, randKind(r.Chance(0.3))))
+		}
+	}
+	for _, h := range c.hs {
+		pMW := 0.35
+		if h.pubKind != pubReal {
+			pMW = 0.6 // a no-publisher handler's chain can only return messages from a middleware
+		}
+		if h.nameKind == nkEmpty {
+			pMW = 0.8
+		}
+		if !r.Chance(pMW) {
+			continue
+		}
+		n := []int{1, 1, 1, 2, 2, 3}[r.Intn(6)]
+		for k := 0; k < n; k++ {
+			kind := randKind(true)
+			if k == 0 && r.Bool() {
+				kind = lkAdd
+			}
+			h.mws = append(h.mws, newLayer(h.idx, kind))
+		}
+		h.deferMW = !h.late && r.Chance(0.4)
+	}
+	// registration program of the part before Run: layer 0 first, then the early handlers in index order,
+	// the extra router-level middlewares at random positions between them (before / after handlers and their
+	// handler-level middlewares), deferred Handler.AddMiddleware calls last in random order
+	c.rlOps = append(c.rlOps, [2]int{1, 0})
+	var body [][2]int
+	var deferred [][2]int
+	for _, h := range c.hs {
+		if h.late {
+			continue
+		}
+		body = append(body, [2]int{0, h.idx})
+		if h.deferMW {
+			deferred = append(deferred, [2]int{2, h.idx})
+		}
+	}
+	for _, i := range r.Perm(len(deferred)) {
+		body = append(body, deferred[i])
+	}
+	for _, l := range routerExtra {
+		at := r.Intn(len(body) + 1)
+		body = append(body[:at], append([][2]int{{1, l.id}}, body[at:]...)...)
+	}
+	c.rlOps = append(c.rlOps, body...)
+}
+
 func (c *caseState) generate() {
 	e, r := c.e, c.e.R
 	id := e.ID()
@@ -481,9 +746,9 @@ func (c *caseState) generate() {
 	if nH > 1 && r.Chance(0.3) {
 		lateFrom = r.Range(1, nH-1)
 	}
+	names, kinds := genNames(r, id, nH, topics)
 	for i := 0; i < nH; i++ {
-		// names are prefixes of each other: h, ha, haa, ...
-		h := &hcfg{idx: i, name: id + "/h" + strings.Repeat("a", i)}
+		h := &hcfg{idx: i, name: names[i], nameKind: kinds[i]}
 		h.sub = r.Intn(nS)
 		h.subTopic = topics[r.Intn(3)]
 		if shareBias && i > 0 && r.Chance(0.6) {
@@ -504,18 +769,26 @@ func (c *caseState) generate() {
 			h.pub = r.Intn(nP)
 			h.pubTopic = topics[r.Intn(3)]
 		}
-		switch h.pubKind {
-		case pubReal:
-			h.mw = r.Chance(0.3)
-		default:
-			h.mw = r.Chance(0.6)
-		}
 		h.late = i >= lateFrom
 		c.hs = append(c.hs, h)
 	}
+	c.genLayers()
 	// one stream per handler index (assigned to subscriptions later)
 	c.plans = map[string]*emPlan{}
 	total := 0
+	// The stream of handler i is emitted on handler i's own subscription when that subscription can be told
+	// apart without the function running (late handler: the subscription its RunHandlers call creates; or
+	// the only handler on its (subscriber, topic)). Only there may a layer short-circuit the function.
+	ownerKnown := make([]bool, nH)
+	{
+		grp := map[string]int{}
+		for _, h := range c.hs {
+			grp[fmt.Sprintf("%d|%s", h.sub, h.subTopic)]++
+		}
+		for _, h := range c.hs {
+			ownerKnown[h.idx] = h.late || grp[fmt.Sprintf("%d|%s", h.sub, h.subTopic)] == 1
+		}
+	}
 	for i := 0; i < nH; i++ {
 		n := r.Intn(5)
 		if i == nH-1 && total == 0 && n == 0 {
@@ -537,6 +810,12 @@ func (c *caseState) generate() {
 					}
 				}
 			}
+			p.fresh["S"] = freshSpec{payload: r.Payload(8), meta: randMeta(r)}
+			p.mwMask = uint32(r.Uint64())
+			if r.Chance(0.25) {
+				p.mwMask = ^uint32(0) // every layer active
+			}
+			p.shortOK = ownerKnown[i]
 			p.failFirst = r.Chance(0.12)
 			p.wait = r.Chance(0.4)
 			p.yields = r.Intn(4)
@@ -552,7 +831,8 @@ func (c *caseState) generate() {
 // ---------------------------------------------------------------------------------------------
 // the case
 
-func (c *caseState) register(r *message.Router, h *hcfg) {
+// register adds handler h to the Router and, unless withMW is false, its handler-level middlewares.
+func (c *caseState) register(r *message.Router, h *hcfg, withMW bool) {
 	var hh *message.Handler
 	switch h.pubKind {
 	case pubReal:
@@ -562,8 +842,28 @@ func (c *caseState) register(r *message.Router, h *hcfg) {
 	default:
 		hh = r.AddHandler(h.name, h.subTopic, c.subs[h.sub].iface, h.pubTopic, nil, c.handlerFunc(h.idx))
 	}
-	if h.mw {
-		hh.AddMiddleware(c.outMW(h.idx))
+	if c.handles == nil {
+		c.handles = map[int]*message.Handler{}
+	}
+	c.handles[h.idx] = hh
+	if withMW {
+		c.addHandlerMWs(h)
+	}
+}
+
+// addHandlerMWs adds h's handler-level middlewares: one AddMiddleware call per layer or one variadic call.
+func (c *caseState) addHandlerMWs(h *hcfg) {
+	hh := c.handles[h.idx]
+	if len(h.mws) > 1 && h.mws[0].arg == 0 {
+		var ms []message.HandlerMiddleware
+		for _, l := range h.mws {
+			ms = append(ms, c.layerMW(l))
+		}
+		hh.AddMiddleware(ms...)
+		return
+	}
+	for _, l := range h.mws {
+		hh.AddMiddleware(c.layerMW(l))
 	}
 }
 
@@ -586,7 +886,7 @@ func (c *caseState) emit(spi int, p *emPlan, attempt int) *emission {
 		for _, h := range c.hs {
 			if h.sub == c.spis[spi].sub && h.subTopic == sp.Topic {
 				sameGroup[h.idx] = true
-				if h.pubKind != pubReal || h.pubTopic == "" || h.subTopic == "" {
+				if h.pubKind != pubReal || h.pubTopic == "" || h.subTopic == "" || h.name == "" {
 					allSet = false
 				}
 			}
@@ -670,10 +970,16 @@ func run(e *vlib.Env) vlib.Result {
 		res.Inconclusive("NewRouter: %v", err)
 		return res
 	}
-	router.AddMiddleware(c.recorder)
-	for _, h := range c.hs {
-		if !h.late {
-			c.register(router, h)
+	// every middleware of the early part is added before Run (Router.AddMiddleware is not synchronised with
+	// starting handlers; handler-level middlewares of late handlers are added before their RunHandlers call)
+	for _, op := range c.rlOps {
+		switch op[0] {
+		case 0:
+			c.register(router, c.hs[op[1]], !c.hs[op[1]].deferMW)
+		case 1:
+			router.AddMiddleware(c.layerMW(c.layers[op[1]]))
+		default:
+			c.addHandlerMWs(c.hs[op[1]])
 		}
 	}
 	ctx, cancel := context.WithCancel(context.Background())
@@ -741,7 +1047,7 @@ func run(e *vlib.Env) vlib.Result {
 		if !h.late {
 			continue
 		}
-		c.register(router, h)
+		c.register(router, h, true)
 		before := len(c.spis)
 		if err := router.RunHandlers(ctx); err != nil {
 			shutdown()
@@ -751,7 +1057,7 @@ func run(e *vlib.Env) vlib.Result {
 		collect(h.idx)
 		if len(c.spis) != before+1 {
 			shutdown()
-			res.Fail("subscribe-topic", "RunHandlers for late handler %d (%s on sub %d topic %q) created %d subscriptions, want exactly 1", h.idx, h.name, h.sub, h.subTopic, len(c.spis)-before)
+			res.Fail("subscribe-topic", "RunHandlers for late handler %d (%s on sub %d topic %q) created %d subscriptions, want exactly 1", h.idx, short(h.name), h.sub, h.subTopic, len(c.spis)-before)
 			return c.finish(res, ctl)
 		}
 	}
@@ -884,18 +1190,17 @@ func (c *caseState) judge(res *vlib.Result, spStream []int) {
 	for _, u := range c.unknown {
 		res.Fail("unknown-message", "%s", u)
 	}
-	invBy := map[string][]invRec{}
+	invBy := map[string][]*invRec{}
 	for _, r := range c.invs {
 		invBy[r.eid] = append(invBy[r.eid], r)
 	}
-	chainBy := map[string][]chainRec{}
-	for _, r := range c.chains {
-		chainBy[r.eid] = append(chainBy[r.eid], r)
+	// the layer executions of one emission, in the order the layers were entered (= outermost first: they
+	// nest inside one goroutine)
+	runsBy := map[string][]*layerRun{}
+	for _, r := range c.lruns {
+		runsBy[r.eid] = append(runsBy[r.eid], r)
 	}
-	mwBy := map[string][]mwRec{}
-	for _, r := range c.mws {
-		mwBy[r.eid] = append(mwBy[r.eid], r)
-	}
+	res.Count("layer_runs", len(c.lruns))
 	emBy := map[string]*emission{}
 	for _, em := range c.emitted {
 		emBy[em.eid] = em
@@ -929,7 +1234,7 @@ func (c *caseState) judge(res *vlib.Result, spStream []int) {
 				res.Fail("spurious-publish", "Publish #%d on publisher %d (topic %q) was called with no messages", pc.No, pi, pc.Topic)
 				continue
 			}
-			if _, ok := emBy[owner]; !ok || len(invBy[owner]) == 0 {
+			if _, ok := emBy[owner]; !ok || len(invBy[owner])+len(runsBy[owner]) == 0 {
 				res.Fail("spurious-publish", "Publish #%d on publisher %d (topic %q) carries %d message(s) (first uuid %q) that no handler invocation of this case returned", pc.No, pi, pc.Topic, len(pc.Msgs), pc.Snaps[0].UUID)
 				continue
 			}
@@ -954,67 +1259,162 @@ func (c *caseState) judge(res *vlib.Result, spStream []int) {
 		}
 		si := c.spis[em.sp]
 		invs := invBy[em.eid]
+		runs := runsBy[em.eid]
 		res.Events++
-		// clause invocation-count: exactly one handler-function invocation per emission
-		if len(invs) != 1 {
+		unfinished := false
+		shorted := -1 // layer that short-circuited the function for this emission
+		for _, lr := range runs {
+			if !lr.done {
+				unfinished = true
+			} else if !lr.called && shorted < 0 {
+				shorted = lr.layer
+			}
+		}
+		for _, r := range invs {
+			unfinished = unfinished || !r.returned
+		}
+		if unfinished {
+			res.Inconclusive("emission %s: a layer or the function has not returned when the case was judged", em.eid)
+			continue
+		}
+		// clause invocation-count: exactly one handler-function invocation per emission - none when a layer of
+		// the chain answered without calling next
+		wantInv := 1
+		if shorted >= 0 {
+			wantInv = 0
+			res.Count("emissions_short_circuited", 1)
+		}
+		if len(invs) != wantInv {
 			var who []int
 			for _, r := range invs {
 				who = append(who, r.h)
 			}
-			res.Fail("invocation-count", "emission %s (uuid %q on subscriber %d topic %q) caused %d handler-function invocations %v, want exactly 1", em.eid, em.snap.UUID, si.sub, si.sp.Topic, len(invs), who)
+			sc := ""
+			if shorted >= 0 {
+				sc = fmt.Sprintf(" (layer %v answered without calling next)", c.layers[shorted])
+			}
+			res.Fail("invocation-count", "emission %s (uuid %q on subscriber %d topic %q) caused %d handler-function invocations %v, want exactly %d%s", em.eid, em.snap.UUID, si.sub, si.sp.Topic, len(invs), who, wantInv, sc)
 			continue
 		}
-		inv := invs[0]
-		h := c.hs[inv.h]
-		res.Count("invocations", 1)
-		// clause wrong-handler: the function is one registered with that (subscriber, subscribe topic)
-		if h.sub != si.sub || h.subTopic != si.sp.Topic {
-			res.Fail("wrong-handler", "emission %s arrived on subscriber %d topic %q but the function of handler %d (%s: subscriber %d topic %q) was invoked", em.eid, si.sub, si.sp.Topic, h.idx, h.name, h.sub, h.subTopic)
-			continue
-		}
-		if si.owner >= 0 && si.owner != h.idx {
-			res.Fail("wrong-handler", "emission %s arrived on the subscription of handler %d but the function of handler %d was invoked", em.eid, si.owner, h.idx)
-			continue
-		}
-		// clause mapping: subscription -> handler learned from the first message is fixed and injective
-		if prev, ok := spOwner[em.sp]; ok && prev != h.idx {
-			res.Fail("mapping-unstable", "subscription %d (subscriber %d topic %q) fed handler %d first and handler %d for emission %s", em.sp, si.sub, si.sp.Topic, prev, h.idx, em.eid)
-			continue
-		}
-		if prev, ok := ownerSp[h.idx]; ok && prev != em.sp {
-			res.Fail("mapping-not-injective", "handler %d received messages of two subscriptions (%d and %d) of subscriber %d topic %q", h.idx, prev, em.sp, si.sub, si.sp.Topic)
-			continue
-		}
-		spOwner[em.sp], ownerSp[h.idx] = h.idx, em.sp
-		// clause consumed-message: the function got the emitted message
-		if !snapEq(inv.snap, em.snap) {
-			res.Fail("consumed-message", "handler %d was passed uuid %q payload %x metadata %v for emission %s, emitted uuid %q payload %x metadata %v", h.idx, inv.snap.UUID, inv.snap.Payload, inv.snap.Metadata, em.eid, em.snap.UUID, em.snap.Payload, em.snap.Metadata)
-			continue
+		var h *hcfg
+		var inv *invRec
+		if shorted >= 0 {
+			// the function did not run: the handler is the owner of the subscription (short-circuiting is only
+			// planned where that is known)
+			if si.owner < 0 {
+				res.Inconclusive("emission %s was short-circuited on a subscription whose handler is not known", em.eid)
+				continue
+			}
+			h = c.hs[si.owner]
+		} else {
+			inv = invs[0]
+			h = c.hs[inv.h]
+			res.Count("invocations", 1)
+			// clause wrong-handler: the function is one registered with that (subscriber, subscribe topic)
+			if h.sub != si.sub || h.subTopic != si.sp.Topic {
+				res.Fail("wrong-handler", "emission %s arrived on subscriber %d topic %q but the function of handler %d (%s: subscriber %d topic %q) was invoked", em.eid, si.sub, si.sp.Topic, h.idx, short(h.name), h.sub, h.subTopic)
+				continue
+			}
+			if si.owner >= 0 && si.owner != h.idx {
+				res.Fail("wrong-handler", "emission %s arrived on the subscription of handler %d but the function of handler %d was invoked", em.eid, si.owner, h.idx)
+				continue
+			}
+			// clause mapping: subscription -> handler learned from the first message is fixed and injective
+			if prev, ok := spOwner[em.sp]; ok && prev != h.idx {
+				res.Fail("mapping-unstable", "subscription %d (subscriber %d topic %q) fed handler %d first and handler %d for emission %s", em.sp, si.sub, si.sp.Topic, prev, h.idx, em.eid)
+				continue
+			}
+			if prev, ok := ownerSp[h.idx]; ok && prev != em.sp {
+				res.Fail("mapping-not-injective", "handler %d received messages of two subscriptions (%d and %d) of subscriber %d topic %q", h.idx, prev, em.sp, si.sub, si.sp.Topic)
+				continue
+			}
+			spOwner[em.sp], ownerSp[h.idx] = h.idx, em.sp
+			// clause consumed-message: the function got the emitted message
+			if !snapEq(inv.snap, em.snap) {
+				res.Fail("consumed-message", "handler %d was passed uuid %q payload %x metadata %v for emission %s, emitted uuid %q payload %x metadata %v", h.idx, inv.snap.UUID, inv.snap.Payload, inv.snap.Metadata, em.eid, em.snap.UUID, em.snap.Payload, em.snap.Metadata)
+				continue
+			}
 		}
 		// clause ctx-in-handler
 		want := c.wantCtx(h)
-		res.Count("ctx_checks", 1)
-		if d := ctxDiff(inv.ctx, want); d != "" {
-			res.Fail("ctx-in-handler", "inside handler %d (%s, %s) for emission %s: %s (all five: %q)", h.idx, h.name, pubKindNames[h.pubKind], em.eid, d, inv.ctx)
-			continue
-		}
-		// clause mw-wrong-handler: a handler-level middleware runs for its own handler only
-		mws := mwBy[em.eid]
-		if h.mw {
-			if len(mws) != 1 || mws[0].owner != h.idx {
-				res.Fail("mw-wrong-handler", "emission %s handled by handler %d (%s): its handler-level middleware ran %d time(s) %v", em.eid, h.idx, h.name, len(mws), mws)
+		if inv != nil {
+			res.Count("ctx_checks", 1)
+			if d := ctxDiff(inv.ctx, want); d != "" {
+				res.Fail("ctx-in-handler", "inside handler %d (%s, %s) for emission %s: %s (all five: %q)", h.idx, short(h.name), pubKindNames[h.pubKind], em.eid, d, inv.ctx)
 				continue
 			}
-		} else if len(mws) != 0 {
-			res.Fail("mw-wrong-handler", "emission %s handled by handler %d (%s, no handler-level middleware) went through the middleware of handler %d (%s)", em.eid, h.idx, h.name, mws[0].owner, c.hs[mws[0].owner].name)
+		}
+		// clause mw-wrong-handler: the layers around this handler's function are the router-level middlewares
+		// and the handler's own handler-level middlewares - no other handler's, none twice, and (unless one of
+		// them answered without calling next, which hides the layers inside it) none missing
+		{
+			ran := map[int]int{}
+			bad := ""
+			for _, lr := range runs {
+				l := c.layers[lr.layer]
+				ran[l.id]++
+				if l.owner >= 0 && l.owner != h.idx && bad == "" {
+					bad = fmt.Sprintf("went through %v, a handler-level middleware of handler %d (%s)", l, l.owner, short(c.hs[l.owner].name))
+				}
+				if ran[l.id] > 1 && bad == "" {
+					bad = fmt.Sprintf("went through %v %d times", l, ran[l.id])
+				}
+			}
+			if bad == "" && shorted < 0 {
+				for _, l := range c.layers {
+					if (l.owner < 0 || l.owner == h.idx) && ran[l.id] == 0 {
+						bad = fmt.Sprintf("did not go through %v of its own chain", l)
+						break
+					}
+				}
+			}
+			if bad != "" {
+				res.Fail("mw-wrong-handler", "emission %s handled by handler %d (%s, own handler-level layers %v) %s; layers entered: %v", em.eid, h.idx, short(h.name), h.mws, bad, c.runNames(runs))
+				continue
+			}
+			if len(h.mws) > 0 {
+				res.Count("emissions_through_handler_level_layers", 1)
+			}
+		}
+		// clause chain-link: what one layer returns is what the layer around it receives from next() - same
+		// objects, same order, same content, same error-ness - from the function's return values outwards;
+		// together with mw-wrong-handler: the outermost return values are what this handler's own chain
+		// (router-level + its handler-level middlewares + function) produced, whatever the nesting order
+		{
+			bad := ""
+			for k, lr := range runs {
+				if !lr.called {
+					if k != len(runs)-1 {
+						bad = fmt.Sprintf("%v answered without calling next, yet %v was entered after it", c.layers[lr.layer], c.layers[runs[k+1].layer])
+					}
+					break
+				}
+				var outs []*message.Message
+				var snaps []vlib.MsgSnap
+				var oerr bool
+				from := ""
+				if k == len(runs)-1 {
+					outs, snaps, oerr, from = inv.ret, inv.retSnaps, inv.retErr, "the function"
+				} else {
+					outs, snaps, oerr, from = runs[k+1].out, runs[k+1].outSnaps, runs[k+1].outErr, c.layers[runs[k+1].layer].String()
+				}
+				res.Count("chain_links_checked", 1)
+				if d := linkDiff(outs, snaps, oerr, lr.in, lr.inSnaps, lr.inErr); d != "" {
+					bad = fmt.Sprintf("%s returned %v (error=%v) but %v received %v (error=%v) from next: %s", from, uuids(snaps), oerr, c.layers[lr.layer], uuids(lr.inSnaps), lr.inErr, d)
+					break
+				}
+			}
+			if bad != "" {
+				res.Fail("chain-link", "emission %s handled by handler %d (%s): %s", em.eid, h.idx, short(h.name), bad)
+				continue
+			}
+		}
+		if len(runs) == 0 {
+			// cannot happen past mw-wrong-handler (layer 0 belongs to every chain)
+			res.Inconclusive("no layer saw emission %s", em.eid)
 			continue
 		}
-		chs := chainBy[em.eid]
-		if len(chs) != 1 {
-			res.Inconclusive("recording middleware saw %d chain returns for %s", len(chs), em.eid)
-			continue
-		}
-		ch := chs[0]
+		ch := chainRec{outs: runs[0].out, snaps: runs[0].outSnaps, err: runs[0].outErr}
 		calls := callsBy[em.eid]
 		sort.Slice(calls, func(i, j int) bool { return calls[i].call.Start < calls[j].call.Start })
 		settled := vlib.Settled(em.msg)
@@ -1028,14 +1428,14 @@ func (c *caseState) judge(res *vlib.Result, spStream []int) {
 			judgedNack++
 			res.Count("nopub_outputs", 1)
 			if len(calls) != 0 {
-				res.Fail("nopub-published", "handler %d (%s, %s) returned %d message(s) for %s and %d Publish call(s) carry them (publisher %d topic %q)", h.idx, h.name, pubKindNames[h.pubKind], len(ch.outs), em.eid, len(calls), calls[0].pub, calls[0].call.Topic)
+				res.Fail("nopub-published", "handler %d (%s, %s) returned %d message(s) for %s and %d Publish call(s) carry them (publisher %d topic %q)", h.idx, short(h.name), pubKindNames[h.pubKind], len(ch.outs), em.eid, len(calls), calls[0].pub, calls[0].call.Topic)
 			} else if settled != "nack" {
-				res.Fail("nopub-nack", "handler %d (%s, %s) returned %d message(s) for %s; the consumed message is %q, want nack", h.idx, h.name, pubKindNames[h.pubKind], len(ch.outs), em.eid, settled)
+				res.Fail("nopub-nack", "handler %d (%s, %s) returned %d message(s) for %s; the consumed message is %q, want nack", h.idx, short(h.name), pubKindNames[h.pubKind], len(ch.outs), em.eid, settled)
 			}
 		default:
 			judgedPub++
 			if len(calls) == 0 {
-				res.Fail("publish-missing", "handler %d (%s) returned %d message(s) for %s but publisher %d saw no Publish with them (consumed message settled %q)", h.idx, h.name, len(ch.outs), em.eid, h.pub, settled)
+				res.Fail("publish-missing", "handler %d (%s) returned %d message(s) for %s but publisher %d saw no Publish with them (consumed message settled %q)", h.idx, short(h.name), len(ch.outs), em.eid, h.pub, settled)
 				break
 			}
 			if len(calls) > 1 {
@@ -1046,10 +1446,10 @@ func (c *caseState) judge(res *vlib.Result, spStream []int) {
 			var ctxs [][5]string
 			for _, a := range calls {
 				if a.pub != h.pub {
-					res.Fail("publish-wrong-publisher", "outputs of handler %d (%s, publisher %d %s) for %s were published on publisher %d %s (topic %q)", h.idx, h.name, h.pub, c.pubs[h.pub].name, em.eid, a.pub, c.pubs[a.pub].name, a.call.Topic)
+					res.Fail("publish-wrong-publisher", "outputs of handler %d (%s, publisher %d %s) for %s were published on publisher %d %s (topic %q)", h.idx, short(h.name), h.pub, c.pubs[h.pub].name, em.eid, a.pub, c.pubs[a.pub].name, a.call.Topic)
 				}
 				if a.call.Topic != h.pubTopic {
-					res.Fail("publish-topic", "outputs of handler %d (%s: subscribe topic %q, publish topic %q) for %s were published to topic %q", h.idx, h.name, h.subTopic, h.pubTopic, em.eid, a.call.Topic)
+					res.Fail("publish-topic", "outputs of handler %d (%s: subscribe topic %q, publish topic %q) for %s were published to topic %q", h.idx, short(h.name), h.subTopic, h.pubTopic, em.eid, a.call.Topic)
 				}
 				for i := range a.call.Msgs {
 					ptrs = append(ptrs, a.call.Msgs[i])
@@ -1079,7 +1479,7 @@ func (c *caseState) judge(res *vlib.Result, spStream []int) {
 				}
 				res.Count("ctx_checks", 1)
 				if d := ctxDiff(ctxs[i], want); d != "" {
-					res.Fail("ctx-on-produced", "output %d (uuid %q) of handler %d (%s) for %s at Publish time: %s (all five: %q)", i, snaps[i].UUID, h.idx, h.name, em.eid, d, ctxs[i])
+					res.Fail("ctx-on-produced", "output %d (uuid %q) of handler %d (%s) for %s at Publish time: %s (all five: %q)", i, snaps[i].UUID, h.idx, short(h.name), em.eid, d, ctxs[i])
 					break
 				}
 			}
@@ -1094,6 +1494,41 @@ func (c *caseState) judge(res *vlib.Result, spStream []int) {
 	res.Count("judged_publish", judgedPub)
 	res.Count("judged_nopub_nack", judgedNack)
 	res.NonTrivial = judgedPub+judgedNack > 0
+}
+
+func (c *caseState) runNames(runs []*layerRun) []string {
+	var out []string
+	for _, lr := range runs {
+		out = append(out, c.layers[lr.layer].String())
+	}
+	return out
+}
+
+// linkDiff compares what an inner stage returned with what the stage around it received.
+func linkDiff(outs []*message.Message, snaps []vlib.MsgSnap, oerr bool, ins []*message.Message, inSnaps []vlib.MsgSnap, ierr bool) string {
+	if oerr != ierr {
+		return "error-ness differs"
+	}
+	if len(outs) != len(ins) {
+		return fmt.Sprintf("%d message(s) became %d", len(outs), len(ins))
+	}
+	for i := range outs {
+		if outs[i] != ins[i] {
+			return fmt.Sprintf("position %d is not the returned object (order or identity changed)", i)
+		}
+		if !snapEq(snaps[i], inSnaps[i]) {
+			return fmt.Sprintf("position %d was modified (uuid %q payload %x metadata %v became uuid %q payload %x metadata %v)", i, snaps[i].UUID, snaps[i].Payload, snaps[i].Metadata, inSnaps[i].UUID, inSnaps[i].Payload, inSnaps[i].Metadata)
+		}
+	}
+	return ""
+}
+
+// short abbreviates very long handler names in messages and samples.
+func short(n string) string {
+	if len(n) <= 48 {
+		return fmt.Sprintf("%q", n)
+	}
+	return fmt.Sprintf("%q...(%d bytes)...%q", n[:24], len(n), n[len(n)-4:])
 }
 
 func uuids(s []vlib.MsgSnap) []string {
@@ -1125,6 +1560,7 @@ func (c *caseState) finish(res vlib.Result, ctl *vlib.Ctl) vlib.Result {
 	c.mu.Lock()
 	defer c.mu.Unlock()
 	sharedSubscription, sharedSub, sharedPub, nopub, late, mw := false, false, false, false, false, false
+	mwChain, oddNames, emptyName := false, false, false
 	grp := map[string]int{}
 	subUse := map[int]int{}
 	pubUse := map[int]int{}
@@ -1138,7 +1574,24 @@ func (c *caseState) finish(res vlib.Result, ctl *vlib.Ctl) vlib.Result {
 			nopub = true
 		}
 		late = late || h.late
-		mw = mw || h.mw
+		mw = mw || len(h.mws) > 0
+		mwChain = mwChain || len(h.mws) > 1
+		if h.nameKind != nkChain {
+			oddNames = true
+		}
+		if h.nameKind == nkEmpty {
+			emptyName = true
+		}
+		res.Count("names_"+nkNames[h.nameKind], 1)
+		for _, l := range h.mws {
+			res.Count("handler_level_layers_"+lkNames[l.kind], 1)
+		}
+	}
+	for _, l := range c.layers[1:] {
+		if l.owner < 0 {
+			mwChain = true
+			res.Count("router_level_layers_"+lkNames[l.kind], 1)
+		}
 	}
 	for _, n := range grp {
 		sharedSubscription = sharedSubscription || n > 1
@@ -1166,14 +1619,21 @@ func (c *caseState) finish(res vlib.Result, ctl *vlib.Ctl) vlib.Result {
 			w += fmt.Sprintf("%d.%d", h.pub, c.pubs[h.pub].kind)
 		}
 		w += ":" + tn(h.pubTopic)
-		if h.mw {
+		if len(h.mws) > 0 {
 			w += "+mw"
+			for _, l := range h.mws {
+				w += "." + lkNames[l.kind]
+			}
+			if h.deferMW {
+				w += "(deferred)"
+			}
 		}
+		w += "/n:" + nkNames[h.nameKind]
 		if h.late {
 			w += "+late"
 		}
 		wiring = append(wiring, w)
-		hsample = append(hsample, map[string]any{"name": h.name, "wiring": w, "subscriber_name": c.subs[h.sub].name})
+		hsample = append(hsample, map[string]any{"name": short(h.name), "wiring": w, "subscriber_name": c.subs[h.sub].name})
 	}
 	switch {
 	case len(c.hs) == 1:
@@ -1191,6 +1651,12 @@ func (c *caseState) finish(res vlib.Result, ctl *vlib.Ctl) vlib.Result {
 	if late {
 		res.Class += "/late"
 	}
+	if oddNames {
+		res.Class += "/oddnames"
+	}
+	if mwChain {
+		res.Class += "/mwchain"
+	}
 	var shapes []string
 	for _, em := range c.emitted {
 		s := em.plan.shape
@@ -1204,7 +1670,11 @@ func (c *caseState) finish(res vlib.Result, ctl *vlib.Ctl) vlib.Result {
 	if c.driveSeq {
 		drive = "sequential"
 	}
-	res.Sig = vlib.Sig(strings.Join(wiring, ","), strings.Join(shapes, ","), drive, c.maxAct.Load())
+	var regProg []string
+	for _, op := range c.rlOps {
+		regProg = append(regProg, fmt.Sprintf("%s%d", []string{"H", "R", "M"}[op[0]], op[1]))
+	}
+	res.Sig = vlib.Sig(strings.Join(wiring, ","), strings.Join(regProg, ","), strings.Join(shapes, ","), drive, c.maxAct.Load())
 	res.Hooks = ctl.Counts()
 	res.Count("handlers", len(c.hs))
 	res.Count("max_concurrent_invocations_sum", int(c.maxAct.Load()))
@@ -1216,6 +1686,16 @@ func (c *caseState) finish(res vlib.Result, ctl *vlib.Ctl) vlib.Result {
 	}
 	if mw {
 		res.Count("cases_with_handler_middleware", 1)
+	}
+	if emptyName {
+		res.Count("cases_with_empty_handler_name", 1)
+		if mw && len(c.hs) > 1 {
+			for _, h := range c.hs {
+				if h.nameKind == nkEmpty && len(h.mws) > 0 {
+					res.Count("cases_empty_name_with_handler_middleware_and_other_handlers", 1)
+				}
+			}
+		}
 	}
 	var trace []string
 	for i, r := range c.invs {
@@ -1240,9 +1720,13 @@ func (c *caseState) finish(res vlib.Result, ctl *vlib.Ctl) vlib.Result {
 	if len(sshapes) > 10 {
 		sshapes = append(append([]string{}, shapes[:10]...), fmt.Sprintf("... %d more", len(shapes)-10))
 	}
-	res.Sample = map[string]any{"handlers": hsample, "drive": drive, "emission_shapes": sshapes, "invocations": trace, "publishes": pubs, "max_overlap": c.maxAct.Load()}
+	var layerNames []string
+	for _, l := range c.layers {
+		layerNames = append(layerNames, l.String())
+	}
+	res.Sample = map[string]any{"handlers": hsample, "layers": layerNames, "registration": regProg, "drive": drive, "emission_shapes": sshapes, "invocations": trace, "publishes": pubs, "max_overlap": c.maxAct.Load()}
 	if res.Failed() && res.Witness == nil {
-		res.Witness = map[string]any{"handlers": hsample, "invocations": trace, "publishes": pubs}
+		res.Witness = map[string]any{"handlers": hsample, "layers": layerNames, "registration": regProg, "invocations": trace, "publishes": pubs}
 	}
 	return res
 }
